@@ -7,7 +7,7 @@ from vlib import core
 from vlib.core import Undecided, log
 from vlib.tlaparse import to_json
 
-HARNESS = ["zz_verif_cons_test.go", "zz_verif_cons_sync_test.go"]
+HARNESS = ["zz_verif_cons_test.go", "zz_verif_cons_sync_test.go", "zz_verif_repotrace_test.go"]
 
 
 def build(ctx):
@@ -124,7 +124,7 @@ def dedupe_runs(rows, names):
             for n in sorted(post):
                 out.append({"ev": "Set", "run": run[0]["run"], "n": n, "post": post[n], "signs": signs.get(n, []),
                             "dec": dec.get(n, "nil"),
-                            "catchup": {v: catch.get(n, {}).get(v, 0) for v in names},
+                            "catchup": {v: catch.get(n, {}).get(v, 0) for v in list(names) + ["ext"]},
                             "pmv": [claims.get(n, {}).get(("claim_prevote", r), []) for r in range(len(post[n]["pv"]))],
                             "pmc": [claims.get(n, {}).get(("claim_precommit", r), []) for r in range(len(post[n]["pc"]))]})
             removed += k - len(post)
@@ -260,3 +260,74 @@ def solo_mc(ctx, name, info, me, maxround, envvalues, weak=(), view=True, invari
     with open(os.path.join(d, name + ".cfg"), "w") as f:
         f.write("\n".join(lines) + "\n")
     return name
+
+
+# ---------------------------------------------------------------------- the repository's own tests, traced (H1 hook)
+REPO_TESTS = ("TestState|TestSetValidBlock|TestProposeValidBlock|TestCommitFromPreviousRound|TestStartNextHeight|"
+              "TestResetTimeoutPrecommit|TestEmitNewValidBlock|TestWaitingTimeout|TestRoundSkip|TestSignSameVoteTwice")
+
+
+def record_repo_tests(ctx, binp, regex=REPO_TESTS, timeout=900):
+    """Run the consensus package's own scripted tests with the step hook recording; returns
+    (list of per-State traces, number of test functions that passed, raw tail)."""
+    d = ctx.subdir("repotrace")
+    rc, txt = ctx.run_test(binp, "^(%s)" % regex, {"VERIF_TRACE_DIR": d}, timeout=timeout, label="repo-tests")
+    npass = txt.count("--- PASS")
+    if rc != 0:
+        # the repository's tests failing on an edited tree is not our verdict; their traces are still judged
+        log("repository tests exited rc=%d (%d passed); traces recorded so far are validated" % (rc, npass))
+    traces = []
+    for f in sorted(os.listdir(d)):
+        if f.startswith("repotrace-") and f.endswith(".ndjson"):
+            try:
+                rows = core.read_ndjson(os.path.join(d, f))
+            except Exception:
+                continue            # a truncated last line of a test that was killed
+            if len(rows) >= 3 and rows[0].get("ev") == "Reset":
+                traces.append(rows)
+    return traces, npass, txt[-600:]
+
+
+def validate_repo_traces(ctx, traces, label="repo"):
+    """Group traces by configuration (validators, powers, proposer rotation, node, invalid values) and
+    validate each group with TMConsensusTrace."""
+    groups = {}
+    for rows in traces:
+        r0 = rows[0]
+        invalid = sorted({x for r in rows for x in _names_in(r) if x.startswith("ZX")})
+        key = json.dumps([r0["vals"], r0["powers"], r0["proposers"], r0["corr"], invalid])
+        groups.setdefault(key, []).append(rows)
+    res = {"viol": [], "drift": [], "runs": 0, "events": 0, "groups": len(groups)}
+    for gi, (key, lst) in enumerate(sorted(groups.items())):
+        vals, powers, proposers, corr, invalid = json.loads(key)
+        info = {"names": vals, "powers": powers, "proposers": proposers}
+        byz = [v for v in vals if v not in corr]
+        name = "CTrace_%s%d" % (label, gi)
+        gen_mc(ctx, name, "TMConsensusTrace", info, byz, lst[0][0]["maxround"])
+        if invalid:
+            p = os.path.join(ctx.spec_copy(), name + ".cfg")
+            txt = open(p).read().replace('InvalidValues = {"ZX"}', "InvalidValues = " + tla_set(invalid))
+            open(p, "w").write(txt)
+        rows = []
+        for k, t in enumerate(lst):
+            for r in t:
+                r = dict(r)
+                r["run"] = k + 1
+                rows.append(r)
+        v = core.validate_traces(ctx, name, rows, cfg=name + ".cfg", label="%s%d" % (label, gi), max_events=4000)
+        for k in ("viol", "drift"):
+            res[k] += v[k]
+        res["runs"] += v["runs"]
+        res["events"] += v["events"]
+    return res
+
+
+def _names_in(r):
+    out = []
+    p = r.get("post")
+    if p:
+        out += [p["lockedV"], p["validV"], p["propBlock"], p["partsHdr"], p["decision"], p["prop"]["v"]]
+    m = r.get("m")
+    if isinstance(m, dict):
+        out.append(m.get("v", ""))
+    return [x for x in out if isinstance(x, str)]
